@@ -37,6 +37,7 @@ PREFIX = [
     ["arrange", [["desc", src("k")]]],
     ["mutate", [["y", ["mul", src("k"), lit(2)]]]],
     ["summarize", [["m", ["max", src("x")]]]],  # drops columns: their references must stay dead after re-rooting
+    ["slice_head", 3, 0],  # (after arrange: a later filter needs a subquery at the re-rooting alias)
     # window columns: the re-rooted table must remember that they are not element-wise
     ["mutate", [["w", ["sum", src("x")]], ["sh", ["shift", src("x"), 1, None, {"arrange": [src("k")]}]]]],
 ]
@@ -49,6 +50,7 @@ REROOT = [
     ["transfer"],
     ["transfer", "rot"],  # the materialised table itself has a rename in its history
     ["transfer", "hidden"],  # ... or hidden columns of its own
+    ["transfer", "sliced"],  # ... or a slice_head
 ]
 
 
@@ -109,7 +111,7 @@ def probes(ex, hist, mstates):
                 for how in ("inner", "left"):
                     out.append(["join", {"at": i_re - 1, "alias": True}, how, [["eq", ["col", "at", cur, n0], ["col", "right", n0]]], {"suffix": "_s"}])
     # self-join with the origin (the same prefix replayed on the source) on every visible column
-    if is_reroot(hist[-1]) and not st.group:
+    if (is_reroot(hist[-1]) or (is_reroot(hist[-2]) and hist[-1][0] == "filter")) and not st.group:
         prefix = [e for e in hist[1:i_re] if e[0] not in ("group_by",)]
         origin = {"src": "T", "hist": prefix}
         try:
